@@ -91,7 +91,7 @@ theorem WfCode.next {c : Code} (hw : WfCode c) {p : Nat} {op : UInt8} (hbd : Bd 
   (0 < h.catch_ → Bd a h.catch_.toNat) ∧ (0 < h.finally_ → Bd a h.finally_.toNat) ∧
   (0 < h.returnTo → Bd a h.returnTo.toNat)
 
-def HsOK (a : Array UInt8) (f : Frame) : Prop := ∀ hs, f.handlers = some hs → ∀ h ∈ hs, HOK a h
+@[reducible] def HsOK (a : Array UInt8) (f : Frame) : Prop := ∀ hs, f.handlers = some hs → ∀ h ∈ hs, HOK a h
 
 /-- a frame: cleared (no function, no handler), or its function is a function cell of the heap,
     its handlers store instruction starts of that function's code, and — for a frame below the
